@@ -198,14 +198,23 @@ PROPS["C13"] = {
 }
 
 # ------------------------------------------------------------------ C25
+SPL = "physical::operators::spillable"
 PROPS["C25"] = {
-    "files": ["verus/c25_limit.vrs"],
+    "files": ["verus/c25_limit.vrs", "kani/spillable.rs"],
     "level": "proof",
     "explanation": "LIMIT/OFFSET arithmetic: LimitState::take_from and satisfied are copied verbatim and verified by Verus with RecordBatch as a carrier (num_rows, slice). With ghost `consumed` = input rows "
                    "seen so far, the counters satisfy skipped = min(consumed, skip), fetched = clamp(consumed - skip, 0, fetch), and the emitted batch is EXACTLY input rows "
                    "[max(consumed,skip), min(consumed+n, skip+fetch)) - so by induction over batches the output is rows skip+1..skip+fetch of the input order for every batch split, "
-                   "including fetch = 0, skip beyond the input and fetch = None.",
-    "kani": [],
+                   "including fetch = 0, skip beyond the input and fetch = None. "
+                   "Spilled sort (ExternalSortExec): three verbatim regions of spillable.rs are compiled against carriers and checked by Kani - the merge comparator closure (must be the order "
+                   "sort_batch sorted the runs in: direction and NULLS FIRST/LAST per key), the spilled branch of execute (must apply the fetch the planner's Sort+Limit fusion hands it), "
+                   "and one step of the k-way merge loop as an inductive step (queued output rows must keep pointing at the rows that were chosen). All three failed on the pinned tree "
+                   "(defects D10, D11, D15, repaired by fix: commits) and hold now.",
+    "kani": [
+        H(SPL, "rows_c::c25_kx_compare_rows_is_run_order", "streaming_k_way_merge::compare_rows (closure body)", "lexicographic over the keys with each key's direction and NULL placement = the order sort_batch gave the runs (make_comparator by Arrow's contract)", lane="B", bound="<= 2 sort keys"),
+        H(SPL, "fetch_c::c25_kx_spilled_result_honours_fetch", "ExternalSortExec::execute (spilled branch)", "output rows == rows [0, min(fetch,total)) of the merged order, contiguous and in order; slice preconditions met; no overflow", lane="B", bound="<= 3 runs, merged rows in <= 2 batches (every split point, every row count)"),
+        H(SPL, "merge_c::c25_kx_merge_step_keeps_pending_rows_b2", "streaming_k_way_merge (loop step after the minimum is chosen)", "inductive step from an arbitrary state: materialized rows ++ pending rows (read through the CURRENT buffers) == old pending rows ++ [chosen row]; every pending row indexes a live buffer below its cursor; the step never fails", lane="B", bound="2 runs, <= 2 pending rows (every buffer size, cursor, flush threshold, reader state)"),
+    ],
     "verus": [
         V("c25_limit", "LimitState::{take_from, satisfied}",
           "invariant preserved; skip/fetch unchanged; emitted rows == input rows [max(consumed,skip), min(consumed+n, skip+fetch)); None iff that range is empty; slice preconditions met; no overflow"),
@@ -214,9 +223,11 @@ PROPS["C25"] = {
         "carrier contracts on arrow RecordBatch (R6): num_rows() == number of rows; slice(o,l) is rows[o..o+l] and requires o+l <= num_rows",
         "R1: LimitState reduced to skip/fetch/skipped/fetched (operator plumbing fields dropped); ghost parameter `consumed` added to take_from's verified signature (spec-only)",
         "the stream::unfold loop that calls take_from once per batch, partitions in index order, is structural and not verified",
+        "assumed contract on arrow::array::make_comparator(l, r, SortOptions{descending, nulls_first}) and on lexsort_to_indices: both order values ascending (reversed when descending) and NULLs first iff nulls_first - the carrier in kani/spillable.rs::rows_c states it",
+        "carriers (R6) for the spilled-sort regions: RecordBatch = a range of rows (num_rows, slice with its bounds precondition asserted), Vec = small list, run readers yield the following batches of their run, build_merged_batch = take(row i of the batch currently in run_buffers[run]); evaluate_expr / read_parquet / merge_runs are oracles",
     ],
-    "not_under_contract": ["SortExec / lexsort (Arrow's sort is the dependency's)", "Sort+Limit fusion in planner.rs", "NULLS FIRST/DESC closure inside streaming_k_way_merge (needs run files)"],
-    "technique": "Verus on the verbatim LimitState methods with RecordBatch as a carrier type and a ghost consumed-rows counter",
+    "not_under_contract": ["SortExec / lexsort (Arrow's sort is the dependency's)", "Sort+Limit fusion in planner.rs (its reliance on the operator's fetch is what D11 is about)", "the minimum search across runs and build_merged_batch / build_merged_batch_final bodies (Arrow take/concat)", "multi_pass_merge file handling", "bind_order_by default NullsLast"],
+    "technique": "Verus on the verbatim LimitState methods with RecordBatch as a carrier type and a ghost consumed-rows counter; Kani on three verbatim regions of the spilled sort compiled against carrier types (bounded in list lengths, labelled)",
     "level_text": "Deductive and unbounded for LIMIT/OFFSET: every skip/fetch pair, every batch size and every split of the input into batches.",
     "level_note": "Trusted: Verus/Z3; two carrier contracts on arrow RecordBatch; the async unfold loop and Arrow's sort kernels are outside.",
 }
